@@ -958,3 +958,65 @@ def r03_7(ctx):
             else:
                 ctx.ok((short, 'index<len'), sample=dict(fn=short, guard='index < table.len()'))
     ctx.need(n >= 1, "input-derived element indices in wire code")
+
+
+@rule('R07.11', ['C07', 'C03'], floor=0, clause='an accessor that reads further into the buffer only when a flag getter of the view says so is covered: check_len examines that same flag and, where it holds, requires the longer length before answering Ok')
+def r07_11(ctx):
+    """Flag consistency between check_len and the accessors (instances exist with feature proto-rpl: the DODAG-id
+    flags of the RPL DAO / DAO-ACK messages).  For an access of constant reach N above the unconditional guarantee
+    that is dominated by an edge `flag() == t` of a bool getter of the same view: check_len must have edges with
+    the same fact, and from each of them Ok is reachable only through an edge on which `len >= N` holds."""
+    F = ctx.F
+    views = wire_views(F)
+    n = 0
+    for adt, cl in sorted(views.items()):
+        K, kv, vb = guarantees(ctx, adt, cl)
+        short = adt.split('::', 1)[1]
+
+        def isflag(node):
+            c = strip(node)
+            return c[0] == 'call' and c[1] in F.bodies and F.bodies[c[1]].meta.get('impl_self') == adt and F.bodies[c[1]].locals[0]['ty'] == 'bool'
+        for b in read_accessors(F, adt):
+            nm = b.key.rsplit('::', 1)[-1]
+            for acc in buffer_accesses(F, b, adt):
+                if acc['need'] is None:
+                    continue
+                hi = interval(expand(F, acc['need'], adt), adt)[1]
+                if hi is None or hi <= K:
+                    continue
+                doms = []
+                for e in guard_edges(F, b, lambda f: f[0] == 'bool' and isflag(f[1])):
+                    if acc['bb'] in b.reachable(cut_edges={e}):
+                        continue
+                    for tb, lab, f in cond_facts(F, b, e[0]):
+                        if (e[0], tb, lab) == e and f[0] == 'bool':
+                            doms.append((strip(f[1])[1], f[2]))
+                for g, truth in doms:
+                    n += 1
+                    gs = g.rsplit('::', 1)[-1]
+                    same = guard_edges(F, cl, lambda f: f[0] == 'bool' and f[2] is truth and isflag(f[1]) and strip(f[1])[1] == g)
+                    if not same:
+                        ctx.bad(f"{adt}|{nm}|flag-not-examined|{gs}", f"{short}::{nm} reads {hi} buffer bytes when {gs}() is {str(truth).lower()}, but check_len never "
+                                f"examines {gs}() (it guarantees {K} bytes unconditionally): the accessor panics on a short packet with that flag", body=b, bb=acc['bb'], line=acc['line'])
+                        continue
+
+                    def long_enough(f, hi=hi):
+                        if f[0] != 'rel':
+                            return False
+                        op, a, c = f[1], f[2], f[3]
+                        if is_len_of_buffer(c, adt):
+                            a, c, op = c, a, FLIP[op]
+                        if not is_len_of_buffer(a, adt):
+                            return False
+                        lo = interval(expand(F, c, adt), adt)[0]
+                        return (op in ('Ge', 'Eq') and lo >= hi) or (op == 'Gt' and lo + 1 >= hi)
+                    cuts = set(pass_edges(F, cl, long_enough))
+                    oks = set(ok_sites(cl))
+                    bad = [e for e in same if oks & set(cl.reachable(cut_edges=cuts, start=e[1]))]
+                    if bad:
+                        ctx.bad(f"{adt}|{nm}|flag-without-length|{gs}", f"{short}::check_len answers Ok on a path where {gs}() is {str(truth).lower()} without requiring the "
+                                f"{hi} bytes that {short}::{nm} reads under that flag", body=cl, bb=bad[0][0])
+                    else:
+                        ctx.ok((adt, nm, gs), sample=dict(view=short, accessor=nm, flag=gs, needs=hi, check_len='requires it where the flag holds'))
+    if n == 0:
+        ctx.ok(('no flag-conditional accessor in this configuration',), sample=dict(note='instances exist with feature proto-rpl (thorough tier, cfg B)'))
